@@ -9,8 +9,12 @@ RULE = ("for valid SPEC-generated exchanges (Valve: info / players / rules units
         "all vectors on a few bases, thorough: on many) is injected at each unit — for units that start with a handshake or challenge "
         "round (Valve and the games on it, GameSpy 3) both at the first exchange of an attempt and at its last one, after the earlier "
         "ones were answered; and recovering vectors at two or three units of one query at once (each unit has its own r+1 tries); attempts are counted on the wire "
-        "(initial request of that unit), the result is compared with the fault-free result. Non-trivial = a delivery was "
-        "received; distinct = distinct implementation outputs.")
+        "(initial request of that unit), the result is compared with the fault-free result. For the families with whole-query "
+        "C10 theorems (Props/C10_<family>_whole.lean: valve, quake, gs2, gs3, jc2m, ffow) every injected script is also "
+        "rebuilt by the model driver from the SPEC's plan (entry <family>plan: Spec.faultyScript / faultyFaults): the two "
+        "lines must be identical, the hypotheses of the theorem are evaluated (theorem-domain count), and result and the "
+        "whole list of datagrams sent (with failed flags) are compared with the SPEC's faultyExpected / faultySends. "
+        "Non-trivial = a delivery was received; distinct = distinct implementation outputs.")
 ASSUMPTIONS = ["timeouts are scripted deliveries (silence); real socket timeouts are C12's subject"]
 TRUSTED = ["hand-written Lean model of utils.rs retry_on_timeout and of the protocols' use of it, checked against the code on every run"]
 
@@ -48,6 +52,7 @@ def run(rep, tier, seed, replay=None):
     import importlib
     cases, meta = [], {}
     units_desc = []
+    plan_requests = []   # families with a SPEC-level faulty script (whole-query C10 theorems): driver requests
     for fam in netprops.FAMILIES:
         fmod = importlib.import_module("props.families." + fam)
         if not hasattr(fmod, "c10_build"):
@@ -74,6 +79,32 @@ def run(rep, tier, seed, replay=None):
                         cid = f"{b.id}u{unit}r{r}{v}"
                         cases.append(fmod.c10_build(b, unit, v, r, cid))
                         meta[cid] = (b, unit, v, r, fmod)
+                        if hasattr(fmod, "c10_plan_request"):
+                            req = fmod.c10_plan_request(b, unit, v, r)
+                            if req:
+                                plan_requests.append(f"{cid} {req}")
+
+    # the same cases as the SPEC's plan scripts (the scripts the whole-query theorems C10_<family>_query_* speak about):
+    # the line built here must BE the line the SPEC builds, and carries the prescribed outcome and sends
+    spec = {}
+    built = {c.split(" ", 1)[0]: c.split(" ", 1)[1] for c in cases}
+    # (the quick tier asks for every case; the thorough tier, whose vectors number hundreds of thousands, for a seeded
+    # sample of at most PLAN_SAMPLE per family — the plan line costs as much as the case itself)
+    PLAN_SAMPLE = 8000
+    by_family = {}
+    for req in plan_requests:
+        by_family.setdefault(meta[req.split(" ", 1)[0]][0].fam, []).append(req)
+    plan_requests = []
+    for fam in sorted(by_family):
+        reqs = by_family[fam]
+        plan_requests += reqs if len(reqs) <= PLAN_SAMPLE else rnd.sample(reqs, PLAN_SAMPLE)
+    for cid, out in vlib.run_model(plan_requests).items():
+        parts = out.split(" ## ")
+        tags = {}
+        for p in parts[1:]:
+            k, _, val = p.partition(" ")
+            tags[k] = val
+        spec[cid] = (parts[0], tags)
 
     # several units of ONE query each losing some attempts (every unit has its own r + 1 tries: what an earlier unit
     # used up must not be missing later): recovering vectors S/F^k V with k <= r at two or three units at once
@@ -123,6 +154,21 @@ def run(rep, tier, seed, replay=None):
         attempts = fmod.c10_attempts(b, unit, vlib.sends_of(impl), want_res == "CLEAN")
         got = vlib.result_of(impl)
         rep.count(f"vector-class:{want_res.split(' ')[0]}")
+        if cid in spec:
+            line, tags = spec[cid]
+            if line != built[cid]:
+                out.append((f"spec-script:{b.fam}", f"unit {unit}, r={r}, vector {v}: the injected script is not the SPEC's plan script: {line[:160]}"))
+            elif tags.get("THM") == "1":
+                rep.count("theorem-domain:" + b.fam)
+                if got != tags.get("WANT"):
+                    out.append((f"retry-spec-result:{b.fam}", f"unit {unit}, r={r}, vector {v}: expected {tags.get('WANT', '')[:120]}, got {got[:200]}"))
+                sent = ",".join(d + ("!" if failed else "") for (_, _, d, failed) in vlib.sends_of(impl))
+                if sent != tags.get("SENT"):
+                    out.append((f"retry-spec-sends:{b.fam}", f"unit {unit}, r={r}, vector {v}: sends differ from the plan's: {sent[:200]}"))
+                if "ATT" in tags and str(attempts) != tags["ATT"] and want_attempts == attempts:
+                    out.append((f"retry-spec-attempts:{b.fam}", f"unit {unit}, r={r}, vector {v}: {attempts} attempts, the plan has {tags['ATT']}"))
+            else:
+                rep.count("outside-theorem-domain:" + b.fam)
         if attempts != want_attempts:
             out.append((f"retry-attempts:{b.fam}", f"unit {unit}, r={r}, vector {v}: {attempts} attempts on the wire, expected {want_attempts}"))
         if want_res == "CLEAN":
